@@ -290,6 +290,12 @@ pub mod stdspec {
         ensures x is Err ==> r is Err && r->Err_0 == x->Err_0, x is Ok ==> f.ensures((x->Ok_0,), r);
     pub assume_specification<T, E> [Result::<T, E>::unwrap_or] (x: Result<T, E>, d: T) -> (r: T)
         ensures x is Ok ==> r == x->Ok_0, x is Err ==> r == d;
+//# section: stdspec-starts-with
+    // `starts_with_spec(s, p)`: the result of str::starts_with (a function of the text and the pattern)
+    pub uninterp spec fn starts_with_spec<P>(s: Seq<char>, p: P) -> bool;
+    #[verifier::allow(undeclared_external_trait)]
+    pub assume_specification<P: core::str::pattern::Pattern> [str::starts_with::<P>] (s: &str, p: P) -> (r: bool)
+        ensures r == starts_with_spec::<P>(s@, p);
 //# section: stdspec-rsplit-once
     pub uninterp spec fn rsplit_once_spec<P>(s: Seq<char>, p: P) -> Option<(Seq<char>, Seq<char>)>;
     #[verifier::allow(undeclared_external_trait)]
